@@ -457,7 +457,8 @@ def main():
                 stats["rejected"] += 1
                 for c in codes:
                     codes_seen[c] = codes_seen.get(c, 0) + 1
-                if not codes or not set(codes) & OK_CODES:
+                # the borrow checker's region errors ("lifetime may not live long enough") carry no code
+                if (not codes and "lifetime may not live long enough" not in err) or (codes and not set(codes) & OK_CODES):
                     machinery.append("program %s rejected for an unexpected reason %s: %s" % (p["name"], codes, err[-300:]))
         elif p["expect"] == "accept":
             f["twins"] += 1
